@@ -1041,9 +1041,14 @@ func (s *storage) RemoveBlobs(ctx context.Context, blobs []blob.Ref) error {
 	if err := grp.Err(); err != nil {
 		return err
 	}
-	if len(unpacked) > 0 {
+	// Packed blobs are removed from small too: a crash between committing a
+	// zip's meta rows and deleting the loose copies leaves them in both
+	// places, and a blob removed only from the meta index would still be
+	// served from small.
+	if len(unpacked)+len(packed) > 0 {
+		all := append(append([]blob.Ref(nil), unpacked...), packed...)
 		grp.Go(func() error {
-			return s.small.RemoveBlobs(ctx, unpacked)
+			return s.small.RemoveBlobs(ctx, all)
 		})
 	}
 	if len(packed) > 0 {
